@@ -527,6 +527,42 @@ func (s *session) step1(f []string) string {
 		}
 		s.sync()
 		return s.observe(res, false)
+	case "racecl":
+		// Close racing with the reader: withheld records are handled first; then nobody receives from Events while the
+		// operation happens and kevent hands its records to the reader, which looks up the watch and — for a new entry
+		// of a watched directory — blocks in sendEvent; Close runs; then the consumer drains until Events is closed.
+		if len(f) < 2 {
+			return "res=bad"
+		}
+		simunix.Release()
+		s.sync()
+		args := make([]string, len(f)-2)
+		for i, a := range f[2:] {
+			args[i] = s.unstrip(a)
+		}
+		if s.closed { // nothing left to race with
+			ok, _ := fsop(f[1], args)
+			if ok {
+				return s.observe("ok", true)
+			}
+			return s.observe("fail", true)
+		}
+		n0 := simunix.Batches()
+		ok, notes := fsop(f[1], args)
+		res := "fail"
+		if ok {
+			res = "ok"
+			simunix.Inject(notes)
+		}
+		if simunix.WaitRetrieved(s.kq, n0, 3*time.Second) {
+			// between kevent's return and the watch lookup the reader makes no call this package could observe
+			time.Sleep(2 * time.Millisecond)
+		}
+		s.w.Close()
+		if !s.drainClosed() {
+			res = "reader-stuck"
+		}
+		return s.observe(res, true)
 	case "hold":
 		simunix.Hold()
 		return s.observe("ok", false)
